@@ -35,14 +35,15 @@ type World struct {
 	Roots        []string
 	Umask        int
 	Idm          *memidm.MemIdm
-	Cwd          string   // reference cwd, tracked from Getwd on the kernel side
-	Snap         fsx.Snap // last reference snapshot
-	Dead         bool     // an emulated call did not return; the instance is abandoned
-	NoOwner      bool     // the file system has no identity manager: owners are not compared
-	CwdStale     bool     // the reference cwd no longer is the directory Chdir named
-	tempK, tempE string   // snapshot paths of the pending temp object on each side
-	chdirPath    string   // what the last successful Chdir reached (kernel view)
-	FastReads    bool     // skip the tree comparison after read-only calls
+	Cwd          string       // reference cwd, tracked from Getwd on the kernel side
+	Snap         fsx.Snap     // last reference snapshot
+	Dead         bool         // an emulated call did not return; the instance is abandoned
+	NoOwner      bool         // the file system has no identity manager: owners are not compared
+	CwdStale     bool         // the reference cwd no longer is the directory Chdir named
+	staleHandle  map[int]bool // slots opened through a relative path while the cwd was stale
+	tempK, tempE string       // snapshot paths of the pending temp object on each side
+	chdirPath    string       // what the last successful Chdir reached (kernel view)
+	FastReads    bool         // skip the tree comparison after read-only calls
 	asUser       avfs.UserReader
 	asIdent      *Ident
 }
@@ -182,6 +183,20 @@ func (w *World) Situation(prop string, o fsx.Op) map[string]string {
 		if o.K == "Getwd" || (o.K == "CreateTemp" || o.K == "MkdirTemp") && o.P != "" && !strings.HasPrefix(o.P, "/") {
 			f["a"] += ",cwd-stale"
 		}
+	}
+	if strings.HasPrefix(o.K, "F") && w.staleHandle[o.H] {
+		// a handle opened through a relative path while the working directory was stale: the two
+		// sides may hold different objects (same finding, one call later)
+		f["a"] += "handle,cwd-stale"
+	}
+	if (o.K == "Open" || o.K == "Create" || o.K == "CreateTemp") && w.staleHandle != nil {
+		delete(w.staleHandle, o.H)
+	}
+	if w.CwdStale && (o.K == "Open" || o.K == "Create") && o.P != "" && !strings.HasPrefix(o.P, "/") {
+		if w.staleHandle == nil {
+			w.staleHandle = map[int]bool{}
+		}
+		w.staleHandle[o.H] = true
 	}
 	f["params"] = ParamClass(w, o)
 	f["ab"] = f["a"] + ";" + f["b"]
